@@ -309,13 +309,17 @@ def mutator_op(rng, name, present):
     return (("set", prop), C.gen_spec(rng, C.SETTERS[prop]))
 
 
-def start_with(rng, kinds):
+def start_with(rng, kinds, age=0, foreign=False):
+    """the file the traces start from. age: its header and table dates lie that many seconds in the past (an archived file: years) or
+    in the future (negative); foreign: table order differs from storage order and junk lies between the blocks"""
     blocks = []
     for kind in kinds:
         v = A.GEN[kind](rng)
-        blocks.append(dict(type=A.BLOCKTYPE[kind], fmt=A.fmt_of(kind, v), payload=A.encode(A.build(kind, v)), cdate=C.T0 - 50, mdate=C.T0 - 40,
-                           adate=C.T0 - 3, comment="pre"))
-    return C.mkfile(14, blocks)
+        blocks.append(dict(type=A.BLOCKTYPE[kind], fmt=A.fmt_of(kind, v), payload=A.encode(A.build(kind, v)), cdate=C.T0 - 50 - age, mdate=C.T0 - 40 - age,
+                           adate=C.T0 - 3 - age, comment="pre"))
+    if foreign:
+        return C.mkfile_gappy(14, blocks, [0, 7, 300, 64], now=C.T0 - age, order=[2, 0, 1])
+    return C.mkfile(14, blocks, now=C.T0 - age)
 
 
 def run(ctx):
@@ -324,10 +328,14 @@ def run(ctx):
     wd = tempfile.mkdtemp(prefix="vtdf")
     traces = []
     try:
-        start = start_with(rng, ["data3d", "events", "emg"])
+        start0 = start_with(rng, ["data3d", "events", "emg"])
+        # the same file as it is found years later (every date in header and table long past), as other software wrote it, or stamped
+        # in the future (a clock that was wrong): nothing in C08 depends on WHEN a file was written or by whom
+        aged = start_with(rng, ["data3d", "events", "emg"], age=86400 * 3210, foreign=True)
+        others = [aged, start_with(rng, ["data3d", "events", "emg"], age=86400 * 400), start_with(rng, ["data3d", "events", "emg"], age=-86400 * 2, foreign=True)]
         present = {5, 16, 11}
         # exhaustive matrix
-        for mode, prefix in MODES.items():
+        for (mode, prefix), start in [(mp, st) for mp in MODES.items() for st in (start0, aged)]:
             for mname in MUTATORS:
                 tr = Trace(start, wd, rng)
                 for p in prefix:
@@ -336,17 +344,18 @@ def run(ctx):
                 tr.do(("mut", cop, spec))
                 tr.do(("read", "has_events", True, False))
                 tr.close()
-                traces.append((tr, f"matrix[{mode} x {mname}]", ("matrix", mode)))
+                traces.append((tr, f"matrix[{mode} x {mname}]" + (" on the aged foreign file" if start is aged else ""), ("matrix", mode)))
             for rname, impl, needs in READERS:
                 tr = Trace(start, wd, rng)
                 for p in prefix:
                     tr.do((p, 2) if p == "enter-interrupted" else (p,))
                 tr.do(("read", rname, impl, needs))
                 tr.close()
-                traces.append((tr, f"matrix[{mode} x reader {rname}]", ("matrix-readers", mode)))
+                traces.append((tr, f"matrix[{mode} x reader {rname}]" + (" on the aged foreign file" if start is aged else ""), ("matrix-readers", mode)))
+        start = start0
         # seeded interleavings
         for k in range(ctx.n(150, 8000)):
-            tr = Trace(start, wd, rng)
+            tr = Trace(rng.choice([start, start] + others), wd, rng)
             pres = set(present)
             modes_seen = set()
             for _ in range(rng.randrange(4, 16)):
